@@ -203,6 +203,20 @@ CHECKS = {
         "boundary for the line API.",
         "5/C19",
     ),
+    "C13": (
+        "exploration",
+        "exhaustive enumeration of event schedules (app receive/close/send from several tasks, peer frames, EOF/reset, "
+        "cancellation, virtual-time advances) up to a bounded length over a configuration grid, plus Hypothesis-sampled "
+        "longer schedules with partial loop-step gaps, on a deterministic virtual-time loop with in-memory transports and a "
+        "scripted RFC 6455 peer; invariants over the history",
+        "For every schedule explored: close() returns within the close timeout; no receive() stays blocked once the "
+        "session is closed or the connection lost; at most one Close frame and no data frame after it on the wire; "
+        "ws.closed implies a closing transport; close_code is the peer's code after a clean handshake and 1006 when no "
+        "Close frame was received.",
+        "Interleavings are at loop-iteration granularity of the deterministic loop; executor jobs are modelled as finishing "
+        "k iterations later; three-valued close-code oracle; write stalls not explored.",
+        "5/C13",
+    ),
 }
 
 REASON_PENDING = "check not built yet in this round (design in DESIGN.md section 5); not claimed until it runs quietly on the unchanged tree"
